@@ -14,7 +14,7 @@ PROFILES = [
     ("two-continuous-states", {"p_w": 1.0, "p_z": 1.0, "p_e": 0.0, "T": [2, 3], "sizes": {"w": 5}, "max_cells": 2500}),
     ("two-continuous-states, second longer", {"p_w": 1.0, "p_z": 1.0, "p_e": 0.0, "T": [2, 3], "sizes": {"w": 3, "z": 5}, "max_cells": 2500}),
     ("several filters", {"p_r": 1.0, "p_choice_filter": 1.0, "p_state_filter": 0.5, "p_q": 0.4, "T": [2, 3]}),
-    ("discrete-only", {"p_w": 0.0, "p_z": 0.0, "p_h": 1.0, "p_r": 0.7, "p_e": 0.5}),
+    ("discrete-only", {"p_w": 0.0, "p_z": 0.0, "p_h": 1.0, "p_r": 0.7, "p_e": 0.5, "p_h_stoch": 0.5, "p_dead_label": 0.7, "sizes": {"h": 3}}),
     ("long-horizon", {"T": [4], "p_z": 0.0, "max_cells": 600}),
     ("infeasible-last-period", {"p_infeasible_last": 1.0, "p_w": 1.0, "p_c": 1.0, "p_nobind": 0.0, "T": [1, 2]}),
     ("inexact-beta-and-tables", {"inexact": True}),
